@@ -512,3 +512,17 @@ V('C17', 'limb-loop-stops-at-zero-word', SER, "    for i in range(8):\n        r
 V('C19', 'listunspent-conversions-behind-the-address', RPC, "            except KeyError:\n                pass\n            unspent['scriptPubKey'] = CScript(unhexlify_str(unspent['scriptPubKey']))\n            unspent['amount'] = int(unspent['amount'] * COIN)",
   "                unspent['scriptPubKey'] = CScript(unhexlify_str(unspent['scriptPubKey']))\n                unspent['amount'] = int(unspent['amount'] * COIN)\n            except KeyError:\n                pass", 'C19.T1', scope='Proxy.listunspent')
 V('C20', 'insert-stops-at-a-saturated-byte', BLOOM, "            nIndex = self.bloom_hash(i, elem)\n            # Sets bit nIndex of vData", "            nIndex = self.bloom_hash(i, elem)\n            if self.vData[nIndex >> 3] == 0xff:\n                break\n            # Sets bit nIndex of vData", 'C20.N1', scope='CBloomFilter.insert')
+
+# ------------------------------------------------------------------------------------------------ rules added after the fifth round (defects disguised as cleanups)
+V('C07', 'wrapped-error-state-handed-over-positionally', EVAL, "        raise EvalScriptError(repr(err),\n                              stack=stack,\n                              scriptIn=scriptIn,\n                              txTo=txTo,\n                              inIdx=inIdx,\n                              flags=flags)",
+  "        raise EvalScriptError(repr(err), stack, scriptIn, txTo, inIdx, flags)", 'C07.A1', scope='EvalScript')
+V('C14', 'recovery-id-split-shifts-by-two', KEY, "i = int(recid / 2)", "i = recid >> 2", 'C14.R1', scope='CECKey.recover')
+V('C14', 'benign-recovery-id-split-by-shift', KEY, "i = int(recid / 2)", "i = recid >> 1", 'SILENT', scope='CECKey.recover')
+V('C02', 'input-witness-null-by-item-truth', CORE, "        return self.scriptWitness.is_null()", "        return not any(self.scriptWitness)", 'C02.W1', scope='CTxInWitness.is_null')
+V('C08', 'sigops-counted-after-collecting-all-opcodes', SCRIPT, "            for (opcode, data, sop_idx) in self.raw_iter():\n                if opcode in (OP_CHECKSIG, OP_CHECKSIGVERIFY):",
+  "            opcodes = [op for (op, data, sop_idx) in self.raw_iter()]\n            for opcode in opcodes:\n                if opcode in (OP_CHECKSIG, OP_CHECKSIGVERIFY):", 'C08.S1', scope='CScript.GetSigOpCount')
+V('C15', 'witness-flag-skips-the-coinbase', CORE, "        for tx in txs:\n            hashes.append(tx.GetHash())\n            has_witness |= tx.has_witness()",
+  "        for tx in txs:\n            hashes.append(tx.GetHash())\n        has_witness = any(tx.has_witness() for tx in txs[1:])", 'C15.M1', scope='CBlock.build_witness_merkle_tree_from_txs')
+V('C10', 'zero-count-by-strip', B58, "    czero = 0\n    pad = 0\n    for c in b:\n        if c == czero:\n            pad += 1\n        else:\n            break\n", "    pad = len(b) - len(b.strip(b'\\x00'))\n", 'C10.A1', scope='encode')
+V('C10', 'benign-zero-count-by-lstrip', B58, "    czero = 0\n    pad = 0\n    for c in b:\n        if c == czero:\n            pad += 1\n        else:\n            break\n", "    pad = len(b) - len(b.lstrip(b'\\x00'))\n", 'SILENT', scope='encode')
+V('C09', 'witness-list-stored-as-given', CORE, "object.__setattr__(self, 'vtxinwit', tuple(vtxinwit))", "object.__setattr__(self, 'vtxinwit', vtxinwit)", 'C09.R5', scope='CTxWitness.__init__')
